@@ -1,5 +1,5 @@
 (* C20 property theorems: statements only; every proof is [exact lemma]. *)
-From Gv Require Import lib.Bytes lib.Json C20.Model C20.Spec C20.Proofs C20.Proofs2.
+From Gv Require Import lib.Bytes lib.Json C20.Model C20.Spec C20.Proofs C20.Proofs2 C20.Proofs3.
 From Coq Require Import List NArith Bool Permutation.
 Import ListNotations.
 
@@ -181,3 +181,11 @@ Theorem c20_reformulation_subset_refuted :
     marshal em p1 d = Err e /\ marshal em p2 d = Ok j2.
 Proof. exact reformulation_subset_refuted_proof. Qed.
 Print Assumptions c20_reformulation_subset_refuted.
+
+(* shape at every depth, by structural induction on the plan tree: the whole output conforms to the
+   plan -- at each message exactly the response keys of the fields that set a value, and the same
+   recursively below every plain nested object and every item of every repeated message *)
+Theorem c20_deep_shape : forall em p,
+  wf_plan p -> forall d j, marshal em p d = Ok j -> conforms em p d j.
+Proof. exact deep_shape. Qed.
+Print Assumptions c20_deep_shape.
